@@ -306,6 +306,29 @@ abbrev R := W × Bool
 /-- the type of "run hook `k` of object `o`" (open recursion: nesting is bounded by fuel in `runHook`) -/
 abbrev HookFn := W → Oid → Kind → R
 
+def markClosing (c : Conn) : Conn := { c with closing := true }
+
+def pushCtx (w : W) : W := { w with ctxDepth := w.ctxDepth + 1 }
+def popCtx (w : W) : W := { w with ctxDepth := w.ctxDepth - 1 }
+
+/-- `safe_apply (APPLY_NET_DEAD, ob, ...)` in remove_interactive(): own error context; an error inside is handled
+    and stops here -/
+def netDeadHook (rh : HookFn) (w : W) (o : Oid) (dested : Bool) : W :=
+  if dested then w else
+  if w.dead o then w else
+  if o = .master then w else            -- the master defines no net_dead()
+  popCtx (rh (emit (pushCtx w) (.tNetdead o)) o .netdead).1
+
+/-- the end of remove_interactive(): `ip != all_users[0]`, console shutdown, FREE (ip), slot and pointer cleared -/
+def freeConnOf (w : W) (o : Oid) (id : Nat) (client : Nat) : W :=
+  match w.users with
+  | none => crash w "remove_interactive: all_users is NULL"
+  | some l =>
+    let text := match findConn w id with | some c => c.out | none => ""
+    let w1 := setInter { w with users := some (freeSlot l id), outs := (client, text) :: w.outs } o none
+    -- console user and stdin is not a tty: "Console input closed (pipe/file) - shutting down"
+    if w.mode = .console && hasId id (l.headD none) then { w1 with shutdown := true } else w1
+
 /-- remove_interactive(ob, dested) -/
 def removeInteractive (rh : HookFn) (w : W) (o : Oid) (dested : Bool) : W :=
   match w.inter o with
@@ -315,25 +338,9 @@ def removeInteractive (rh : HookFn) (w : W) (o : Oid) (dested : Bool) : W :=
     | none => crash w s!"remove_interactive: dangling interactive #{id}"
     | some c =>
       if c.closing then w else                -- "Double call to remove_interactive()"
-      let w := mapConn w id (fun c => { c with closing := true })
-      -- safe_apply(net_dead): own error context; an error inside is handled and stops here
-      let w := if dested then w else
-        if w.dead o then w else
-        if o = .master then w else            -- the master defines no net_dead()
-        let w := { w with ctxDepth := w.ctxDepth + 1 }
-        let w := emit w (.tNetdead o)
-        let (w, _) := rh w o .netdead
-        { w with ctxDepth := w.ctxDepth - 1 }
+      let w := netDeadHook rh (mapConn w id markClosing) o dested
       -- the record is still ours (CLOSING keeps everybody else away): ip->snoop_by, ip != all_users[0], FREE (ip)
-      let w := useConn w id
-      match w.users with
-      | none => crash w "remove_interactive: all_users is NULL"
-      | some l =>
-        let isConsole := hasId id (l.headD none)
-        let w := if w.mode = .console && isConsole then { w with shutdown := true } else w   -- stdin is not a tty
-        let text := match findConn w id with | some c => c.out | none => ""
-        let w := { w with users := some (freeSlot l id), outs := (c.client, text) :: w.outs }
-        setInter w o none
+      freeConnOf (useConn w id) o id c.client
 
 /-- destruct_object() -/
 def destructObject (rh : HookFn) (w : W) (o : Oid) : W :=
